@@ -231,6 +231,19 @@ func genWire(tier string) []proto.RTItem {
 			items = append(items, mk("udp", "", "10.9.8.7", []string{"198.51.100.1", "10.1.2.3"}, http, rdns))
 		}
 	}
+	// the command-line front end with --skip-private-hops (in-process; send delay fixed at 50 ms)
+	for _, rdns := range []bool{false, true} {
+		for _, pm := range [][3]string{{"udp", "", "203.0.113.77"}, {"tcp", "syn", "203.0.113.77"}, {"icmp", "", "2001:db8::77"}} {
+			routers := addrs4[:4]
+			if strings.Contains(pm[2], ":") {
+				routers = addrs6[:4]
+			}
+			it := mk(pm[0], pm[1], pm[2], routers, false, rdns)
+			it.Scn.CLI, it.Scn.DelayMs = true, 50
+			it.Class = strings.Replace(it.Class, "wire/RunTraceroute/", "wire/cli/", 1)
+			items = append(items, it)
+		}
+	}
 	return items
 }
 
